@@ -21,7 +21,7 @@ def RULE(tier):
         "harness. Actions: application send on either side (unique payload; accepted iff send_msg returns), deliver the next "
         "in-flight frame in either direction (or all in-flight frames of one direction coalesced into one read), break the connection (everything in flight lost; each end sees EOF / "
         "ConnectionResetError on read / OSError on read / a failing drain), end the connection gracefully from either side (public disconnect() with a Logout; counted against the break budget; in walks, fixed sequences and the thorough DFS), reconnect (real connect() / _handle_accept() over "
-        f"fresh streams + Logon), and (walks and fixed sequences only) a keep-alive probe (TestRequest, answered by the peer's Heartbeat), switching a side's application to answering every received message from inside on_message, and arming a side's on_message to raise once after it recorded the message. Bounded-exhaustive DFS over all action sequences up to depth {b['depth']} with <= {b['sends']} sends "
+        f"fresh streams + Logon), and (walks and fixed sequences only) a keep-alive probe (TestRequest, answered by the peer's Heartbeat), switching a side's application to answering every received message from inside on_message, arming a side's on_message to call disconnect() once, and arming a side's on_message to raise once after it recorded the message. Bounded-exhaustive DFS over all action sequences up to depth {b['depth']} with <= {b['sends']} sends "
         f"and <= {b['breaks']} breaks of kinds {b['kinds']} (each sequence re-executed from scratch, deduplicated by a hash of both "
         f"state enums, the four counters, both journals, FIFO contents and delivery counts), plus Hypothesis walks up to {WALK[tier]} "
         "actions with all break kinds. Every explored sequence is closed (deliver all, watchdog for an end that has not noticed, "
@@ -93,6 +93,9 @@ def apply(d, a, flags):
     elif a[0] == "responder":
         d.set_responder(a[1])
         flags.add("re-entrant-responder")
+    elif a[0] == "armd":
+        d.ep[a[1]].disconnect_next += 1
+        flags.add("handler-disconnects")
     elif a[0] == "arm":
         d.ep[a[1]].raise_next += 1
         flags.add("handler-raises")
@@ -212,7 +215,7 @@ def run_walk(acc, steps):
             if cat == "break" and choice % 3 == 0:
                 cat = "logout"
             if choice % 41 == 0:
-                acts = [("arm", "c"), ("arm", "s")]
+                acts = [("arm", "c"), ("arm", "s"), ("armd", "c"), ("armd", "s")]
             elif choice % 37 == 0:
                 acts = [("testreq", "c"), ("testreq", "s")]
             elif choice % 29 == 0 and len(seq) < 6:
@@ -248,6 +251,9 @@ FIXED = [
      ("reconnect",), ("send", "s")],
     [("send", "c"), ("send", "c"), ("break", "eof"), ("reconnect",), ("deliver", "c"), ("logout", "c"), ("deliver", "c"), ("reconnect",), ("send", "c"), ("send", "s")],
     [("send", "c"), ("send", "s"), ("logout", "c"), ("reconnect",), ("send", "c"), ("logout", "s"), ("reconnect",)],
+    # an application that ends the connection from inside on_message; the same session reconnects
+    [("send", "c"), ("send", "c"), ("armd", "s"), ("deliver", "c"), ("reconnect",), ("send", "c"), ("send", "s")],
+    [("send", "s"), ("armd", "c"), ("deliver", "s"), ("send", "s"), ("reconnect",), ("armd", "c"), ("send", "s")],
     # an application that answers from inside on_message, across a loss and the replay that follows
     [("responder", "s"), ("send", "c"), ("deliver", "c"), ("send", "c"), ("send", "c"), ("break", "eof"), ("reconnect",), ("send", "c")],
     [("responder", "c"), ("responder", "s"), ("send", "s"), ("send", "c"), ("deliver_all", "s"), ("break", "eof"), ("reconnect",), ("send", "s")],
